@@ -66,7 +66,10 @@ def activity(cfg, log, label):
             from vf.gen import harvest
             f, _ = harvest.load(cfg["file"])
         else:
-            f = Fandango(cfg["spec"], use_stdlib=cfg.get("use_stdlib", False))
+            kw = {}
+            if "lazy" in cfg:
+                kw["lazy"] = cfg["lazy"]
+            f = Fandango(cfg["spec"], use_stdlib=cfg.get("use_stdlib", False), **kw)
     except Exception as e:
         log.append([label, "spec-rejected", type(e).__name__])
         return None
